@@ -148,15 +148,20 @@ class TlsFakeConnection(FakeConnection):
 
 
 class RecClient(LoopClient):
+    """per scenario a fresh subclass is made (Run.client_class) whose class attributes net / created belong to
+    that scenario: a straggling thread of an earlier scenario in the same process cannot write into a later one"""
     role = '?'
-    labels: dict = {}
+    created: list = []
+    _count = 0
 
     def __init__(self, netloc, socket_timeout, logger, ssl_context, *a, **k):
-        super().__init__(netloc, socket_timeout, logger, ssl_context, *a, **k)
-        ent = LoopClient.created[-1]
-        ent['role'] = self.role
-        ent['ctx'] = None if ssl_context is None else getattr(ssl_context, 'label', 'foreign')
-        ent['host'] = 'alt' if netloc.startswith(ALT) else 'ip'
+        SoapClient.__init__(self, netloc, socket_timeout, logger, ssl_context, *a, **k)
+        RecClient._count += 1
+        self.client_name = f'client{RecClient._count}'
+        self.created.append({'netloc': netloc, 'tls': ssl_context is not None, 'name': self.client_name,
+                             'role': self.role,
+                             'ctx': None if ssl_context is None else getattr(ssl_context, 'label', 'foreign'),
+                             'host': 'alt' if netloc.startswith(ALT) else 'ip'})
 
     def _mk_http_connection(self):
         real = SoapClient._mk_http_connection(self)          # the REAL decision; nothing is opened
@@ -200,14 +205,13 @@ class FakeHttpd(FakeHttpServer):
     instances: list = []
 
     def __init__(self, logger, server_address, chunk_size, supported_encodings):
-        super().__init__(FakeHttpd.net, ip=server_address[0], supported_encodings=supported_encodings,
+        super().__init__(self.net, ip=server_address[0], supported_encodings=supported_encodings,
                          chunk_size=chunk_size)
         self.logger = logger
         self.socket = ListenSocket()
         self.threads = []
         self._shut = threading.Event()
         self.forced_tls = None          # set by the scenario operation 'flip': another peer answers at this address
-        FakeHttpd.instances.append(self)
 
     @property
     def tls(self):
@@ -340,11 +344,9 @@ class Run:
         self.net = Net()
         self.net.attempts = []
         self.net.connections = []
-        LoopClient.net = self.net
-        LoopClient.created = []
-        FakeHttpd.net = self.net
-        FakeHttpd.instances = []
-        httpserverimpl._ThreadingHTTPServer = FakeHttpd     # only the TCP server; HttpServerThreadBase stays real
+        self.created = []
+        # only the TCP server is replaced; HttpServerThreadBase stays real
+        httpserverimpl._ThreadingHTTPServer = type('FakeHttpdRun', (FakeHttpd,), {'net': self.net})
         from sdc11073.consumer import subscription as c_subscription
         from sdc11073.provider import subscriptionmgr_base
         # the tutorial alarm role provider publishes AlertSystemState updates every second from a worker thread;
@@ -365,6 +367,9 @@ class Run:
         self.client_owner = {}
 
     # ---- helpers
+    def client_class(self, base):
+        return type(base.__name__ + 'Run', (base,), {'net': self.net, 'created': self.created})
+
     def phase(self, name, status):
         self.tr['phases'].append([name, status])
 
@@ -377,7 +382,7 @@ class Run:
         from tests import mockstuff
         c = self.case
         comp = self.providerimpl.provider_components_sync_factory()
-        comp.soap_client_class = ProvClient
+        comp.soap_client_class = self.client_class(ProvClient)
         self.p_cont = mk_container('P', self.wraps) if c['p_tls'] else None
         self.wsd = MockWsDiscovery(IP)
         mdib_bytes = (REPO / 'tests' / '70041_MDIB_Final.xml').read_bytes()
@@ -413,7 +418,7 @@ class Run:
         from sdc11073.dispatch import RequestDispatcher
         c = self.case
         cc = self.consumerimpl.default_components_factory()
-        cc.soap_client_class = ConsClient
+        cc.soap_client_class = self.client_class(ConsClient)
         cc.action_dispatcher_class = RequestDispatcher
         x_addr = self.provider.get_xaddrs()[0]
         if c['x'] == 'flip':
@@ -440,7 +445,7 @@ class Run:
         self.scraped_upto = len(log)
 
     def client_role(self, name):
-        for ent in LoopClient.created:
+        for ent in list(self.created):
             if ent['name'] == name:
                 return ent['role']
         return '?'
@@ -568,7 +573,9 @@ class Run:
                     for s in list(mgr._subscriptions.objects)
                     if s.is_valid and s.unsubscribed_at is None and s.matches(action)]
             t_end = _time.monotonic() + (60 if live else 0.2)
-            while _time.monotonic() < t_end and n_p_attempts() == n_att:
+            # (a pooled client that already failed raises NotConnected without a new attempt: then the
+            # subscription turns invalid instead)
+            while _time.monotonic() < t_end and n_p_attempts() == n_att and (not live or any(s.is_valid for s in live)):
                 _time.sleep(0.005)
             return 'requested'
 
@@ -602,7 +609,7 @@ class Run:
         out = list(self.advs)
         self.scrape_new(out)
         tr['advs'] = out
-        tr['created'] = [{k: e.get(k) for k in ('role', 'tls', 'ctx', 'host')} for e in LoopClient.created]
+        tr['created'] = [{k: e.get(k) for k in ('role', 'tls', 'ctx', 'host')} for e in list(self.created)]
         tr['connections'] = self.net.connections
         tr['attempts'] = self.net.attempts
         tr['wraps'] = self.wraps
